@@ -41,31 +41,32 @@ type Clause struct {
 }
 
 type Contract struct {
-	Key      string
-	Header   string
-	Decl     *ast.FuncDecl
-	Pkg      *types.Package
-	Requires []*Clause
-	Ensures  []*Clause
-	Modifies []string
-	ModAll   bool
+	Key       string
+	Header    string
+	Decl      *ast.FuncDecl
+	Pkg       *types.Package
+	Requires  []*Clause
+	Ensures   []*Clause
+	Modifies  []string
+	ModAll    bool
 	ModAllBut []string // `modifies allbut T, ghost, bytes`: everything may change except these
-	HasMod   bool
-	LoopInv  map[int][]*Clause
-	LoopStep map[int][]*Clause
-	AtSend   []*AtSend
-	AtCall   []*AtSend // Field = callee name
-	Props    []string
-	Inline   bool
-	Trusted  bool
-	NilRecv  bool
-	Nilable  map[string]bool
-	MayPanic bool
-	Pure     bool
-	Defines  []*Clause
-	File     string
-	IsIface  bool
-	Replay   []string
+	HasMod    bool
+	LoopInv   map[int][]*Clause
+	LoopStep  map[int][]*Clause
+	AtSend    []*AtSend
+	AtCall    []*AtSend // Field = callee name
+	Props     []string
+	Inline    bool
+	Trusted   bool
+	NilRecv   bool
+	Nilable   map[string]bool
+	MayPanic  bool
+	Pure      bool
+	NoSafety  bool // implicit panics are assumed away, not checked, under this contract
+	Defines   []*Clause
+	File      string
+	IsIface   bool
+	Replay    []string
 }
 
 // AtSend: a fact checked at every send on the channel held in a struct field
@@ -99,7 +100,7 @@ func (c *Contract) nilable(name string, isRecv bool) bool {
 	return c.Nilable[name]
 }
 
-var clauseKeywords = map[string]bool{"atsend": true, "atcall": true, "nilable": true, "pure": true, "defines": true, "requires": true, "ensures": true, "modifies": true, "loop": true, "property": true,
+var clauseKeywords = map[string]bool{"nosafety": true, "invariant": true, "history": true, "atsend": true, "atcall": true, "nilable": true, "pure": true, "defines": true, "requires": true, "ensures": true, "modifies": true, "loop": true, "property": true,
 	"inline": true, "trusted": true, "nilrecv": true, "maypanic": true, "label": true, "replay": true, "topensures": true}
 
 func (e *Engine) loadContracts(dir string, pkg *types.Package) error {
@@ -120,6 +121,7 @@ func (e *Engine) loadContractFile(path string, pkg *types.Package) error {
 	}
 	e.contractFiles = append(e.contractFiles, path)
 	var cur *Contract
+	var curMon *Monitor
 	var lastClause *Clause
 	var lastMod bool
 	var pendingLabel string
@@ -162,6 +164,33 @@ func (e *Engine) loadContractFile(path string, pkg *types.Package) error {
 			e.preds[pkg.Path()+"."+p.Name] = p
 			pendingPred = p
 			cur, lastClause = nil, nil
+			continue
+		case kw == "monitor":
+			// monitor (c *Connection) stateMut guards state, other.field
+			gi := strings.Index(rest, " guards ")
+			if gi < 0 {
+				return fail(fmt.Errorf("monitor without guards"))
+			}
+			hdr := strings.TrimSpace(rest[:gi])
+			ci := strings.Index(hdr, ")")
+			fd, err := parseFuncHeader("func " + hdr[:ci+1] + " m()")
+			if err != nil {
+				return fail(err)
+			}
+			m := &Monitor{Pkg: pkg, MutexPath: strings.TrimSpace(hdr[ci+1:])}
+			m.Self = fd.Recv.List[0].Names[0].Name
+			rt := fd.Recv.List[0].Type
+			if st, ok := rt.(*ast.StarExpr); ok {
+				rt = st.X
+			}
+			m.RootT = types.ExprString(rt)
+			m.Name = m.RootT + "." + m.MutexPath
+			for _, g := range splitTop(rest[gi+len(" guards "):], ',') {
+				m.Guards = append(m.Guards, strings.TrimSpace(g))
+			}
+			e.monitors = append(e.monitors, m)
+			curMon = m
+			pendingPred, cur, lastClause = nil, nil, nil
 			continue
 		case kw == "ghostfield":
 			// ghostfield NAME [sort]: per-object ghost state, read as NAME(obj)
@@ -269,6 +298,7 @@ func (e *Engine) loadContractFile(path string, pkg *types.Package) error {
 			e.contracts[c.Key] = c
 			e.contractOrder = append(e.contractOrder, c.Key)
 			cur, lastClause, lastMod = c, nil, false
+			curMon = nil
 			continue
 		}
 		if !clauseKeywords[kw] {
@@ -286,6 +316,20 @@ func (e *Engine) loadContractFile(path string, pkg *types.Package) error {
 			continue
 		}
 		pendingPred = nil
+		if curMon != nil && cur == nil && (kw == "invariant" || kw == "history") {
+			lastClause = &Clause{Text: rest, Label: pendingLabel}
+			pendingLabel = ""
+			if kw == "invariant" {
+				curMon.Invariant = append(curMon.Invariant, lastClause)
+			} else {
+				curMon.History = append(curMon.History, lastClause)
+			}
+			continue
+		}
+		if kw == "label" && cur == nil && curMon != nil {
+			pendingLabel = rest
+			continue
+		}
 		if cur == nil {
 			return fail(fmt.Errorf("clause outside a contract"))
 		}
@@ -358,6 +402,8 @@ func (e *Engine) loadContractFile(path string, pkg *types.Package) error {
 			lastClause = &Clause{Text: strings.TrimSpace(strings.TrimPrefix(rest, fields[1])), Label: pendingLabel}
 			cur.AtCall = append(cur.AtCall, &AtSend{Field: fields[1], Clause: lastClause})
 			pendingLabel = ""
+		case "nosafety":
+			cur.NoSafety = true
 		case "pure":
 			cur.Pure = true
 		case "defines":
